@@ -548,3 +548,28 @@ def has_fact(events, upto, text, truth=True):
 
 def resolved_text(events, upto, expr):
   return unparse(sym_resolve(expr, sym_env(events, upto))).replace(' ', '')
+
+
+def late_bound_loopvars(fnode):
+  """Functions/lambdas defined inside a for loop that read the loop variable as a free variable (not through a
+  parameter default): every one of them sees the value of the LAST iteration when it is called later.
+  -> [(nested def node, variable name)]"""
+  out = []
+  for lp in ast.walk(fnode):
+    if not isinstance(lp, ast.For):
+      continue
+    lvars = set(n.id for n in ast.walk(lp.target) if isinstance(n, ast.Name))
+    for st in lp.body:
+      for n in ast.walk(st):
+        if isinstance(n, (ast.FunctionDef, ast.Lambda)):
+          params = set(a.arg for a in n.args.posonlyargs + n.args.args + n.args.kwonlyargs)
+          if n.args.vararg:
+            params.add(n.args.vararg.arg)
+          if n.args.kwarg:
+            params.add(n.args.kwarg.arg)
+          body = n.body if isinstance(n.body, list) else [n.body]
+          assigned = set(x.id for b in body for x in ast.walk(b) if isinstance(x, ast.Name) and isinstance(x.ctx, ast.Store))
+          used = set(x.id for b in body for x in ast.walk(b) if isinstance(x, ast.Name) and isinstance(x.ctx, ast.Load))
+          for v in sorted((used & lvars) - params - assigned):
+            out.append((n, v))
+  return out
